@@ -291,7 +291,14 @@ func (m *scanModel) SendRPC(rpc hrpc.Call) (proto.Message, error) {
 		if bytes.Compare(k, rs) < 0 || (len(re) != 0 && bytes.Compare(k, re) >= 0) {
 			continue
 		}
-		if !m.spec.Reversed {
+		if len(start) != 0 && bytes.Equal(start, req.Scan.GetStopRow()) {
+			// HBase reads a scan whose start row equals its stop row as a point get of that row
+			// (Scan.isGetScan in 1.x; ProtobufUtil.toScan in 2.x for clients that, like this one,
+			// never send include_stop_row): the stop row is inclusive then
+			if !bytes.Equal(k, start) {
+				continue
+			}
+		} else if !m.spec.Reversed {
 			if bytes.Compare(k, start) < 0 || (len(m.spec.Stop) != 0 && bytes.Compare(k, m.spec.Stop) >= 0) {
 				continue
 			}
